@@ -1,4 +1,5 @@
-import TR.Lemmas.CircuitRefine
+import TR.Lemmas.CircuitEmbed
+import TR.Lemmas.CircuitTrace
 /-!
 # C04 — the breaker trips and recovers exactly as its documented state machine
 
@@ -12,13 +13,55 @@ state (also under concurrency), and for whole sequential histories over
 namespace TR.Props.C04
 open TR TR.Circuit TR.Spec
 
-/-- **Refinement, whole sequential histories.** For every configuration (both window types,
-all sizes/durations, thresholds, minimum calls, permitted half-open calls, slow-call detection
-on/off — the classifier only decides the `fail` bit of each call) and every history, the
-abstraction of the transcribed circuit equals the documented machine run on the same history. -/
+/-- **Refinement, whole sequential histories — over the sequential driver `seqRun`** (`try_acquire`, then `record`, directly on
+the transcribed circuit). Kept as the lemma behind `refines_run`, which is the same statement about `run` / `stepS`, the model
+the correspondence check validates. -/
 theorem refines (cfg : Cfg) (acts : List Act) :
     (abs (seqRun cfg acts).1, (seqRun cfg acts).2) = specRun cfg acts :=
   seq_refines_from cfg acts _ (seq_init cfg)
+
+/-- **Sequential histories live inside the full model.** Write a history as the operations a sequential client performs — per
+`call fail dur`: `arrive c inner=dur:<ok|err1>`, `poll c`, `adv dur`, `poll c` (`opsOf`; this is what `gen/circuit.py: gen_seq`
+generates), per `wait`: `adv`, per override: the `manual` operation. Then the full model (`run`: callers arriving, first polls,
+admission and inner call in one step, completion and recording in another, the caller's own `ep` / `own` bookkeeping) ends
+with exactly the circuit and at exactly the instant the sequential driver computes. `seqRunP` is `seqRun` for this *patient*
+client: a rejected call is followed by the `dur` ticks it would have taken (the generated histories advance the clock whatever
+the answer). `hm`: one tick per millisecond (scripted latencies are tokio timers; in `tick=us` cases they end on millisecond
+boundaries, `C03.scripted_latency_on_ms_grid`). -/
+theorem seq_embeds (cfg : Cfg) (hm : cfg.msTicks = 1) (acts : List Act) :
+    ((run cfg (opsOf 0 acts)).circ, (run cfg (opsOf 0 acts)).now) = seqRunP cfg acts :=
+  embeds_from cfg hm acts init 0 ⟨rfl, rfl, rfl, rfl, by simp [init]⟩
+
+/-- **Refinement, whole sequential histories — over `run`.** For every configuration (both window types, all sizes / durations,
+thresholds, minimum calls, permitted half-open calls, slow-call detection on / off; the classifier only decides the `fail` bit,
+`classify_outOf`) and every sequential history, the abstraction of the circuit the FULL model reaches on the history's
+operations equals the documented machine run on the same history (`specRunP`: the documented machine with the same patient
+client). -/
+theorem refines_run (cfg : Cfg) (hm : cfg.msTicks = 1) (acts : List Act) :
+    (abs (run cfg (opsOf 0 acts)).circ, (run cfg (opsOf 0 acts)).now) = specRunP cfg acts := by
+  have h := seq_embeds cfg hm acts
+  have h1 : (run cfg (opsOf 0 acts)).circ = (seqRunP cfg acts).1 := congrArg Prod.fst h
+  have h2 : (run cfg (opsOf 0 acts)).now = (seqRunP cfg acts).2 := congrArg Prod.snd h
+  rw [h1, h2]
+  exact seqP_refines_from cfg acts _ (seq_init cfg)
+
+/-- The patient client differs from the impatient one of `refines` only after a rejection: a history in which every rejected
+call has `dur = 0` (in particular every history of instantaneous calls) is run identically by both. -/
+theorem patient_is_seq_when_instant (cfg : Cfg) (p : Circuit × Nat) (fail : Bool) :
+    seqStepP cfg p (.call fail 0) = seqStep cfg p (.call fail 0) := by
+  simp only [seqStepP, seqStep]
+  split <;> rfl
+
+/-- **Refinement of `try_acquire`** in every reachable state of the full model: the admission changes the abstract state exactly
+as the documented arrival of a call does, and outside half-open the admission bit is the documented one (inside half-open it is
+`half_open_admitted < permitted`: how many trials — C09). -/
+theorem tryAcquire_refines_reachable (cfg : Cfg) (ops : List Op) (now : Nat) :
+    abs (tryAcquire cfg (run cfg ops).circ now).1 = ((abs (run cfg ops).circ).arrive cfg now).1 ∧
+    ((run cfg ops).circ.st ≠ .halfOpen →
+      (tryAcquire cfg (run cfg ops).circ now).2.1 = ((abs (run cfg ops).circ).arrive cfg now).2) ∧
+    ((run cfg ops).circ.st = .halfOpen →
+      (tryAcquire cfg (run cfg ops).circ now).2.1 = decide ((run cfg ops).circ.hoAdmitted < cfg.permitted)) :=
+  tryAcquire_refines cfg now _
 
 /-- **Refinement of `record_success` / `record_failure`** in every reachable state of the full
 model (any number of concurrent callers, cancellations, …): recording an outcome changes the
@@ -171,9 +214,59 @@ theorem reset_empties_window (cfg : Cfg) (ops : List Op) :
   simp [stats, clearWindow, countFail, countSlow]
 
 /-- The lock-free view (`state_sync`, `is_open`), the async view (`state`) and the metrics
-snapshot are the same function of the circuit: the mirror always equals the state. -/
+snapshot are the same function of the circuit: the mirror always equals the state — in every reachable state, i.e. whenever
+nobody is inside a critical section of the breaker (for what a listener sees INSIDE one: `listener_view_lags`). -/
 theorem views_agree (cfg : Cfg) (ops : List Op) : (run cfg ops).circ.mirror = (run cfg ops).circ.st :=
   (sinv_reachable cfg ops).circ.mirror
+
+/-- **The one place where the views lag.** `transition_to` emits the `StateTransition` event before it assigns the state and
+stores the lock-free view. A listener that reads `state_sync()` / `is_open()` / `http_status()` inside its callback therefore
+reads the state the breaker is LEAVING (`m = a`), not the `to_state` it is being told about (`a ≠ b`) — for every transition
+event of every reachable log. (`state()` / `metrics()` cannot be called there: the listener runs under the breaker's mutex.) The
+correspondence check exercises it: `listen=2` / `lis:trs` cases log `transition a b sync=<what the listener read>`. -/
+theorem listener_view_lags (cfg : Cfg) (ops : List Op) (n t : Nat) (a b m : St)
+    (hp : (run cfg ops).log[n]? = some (t, .transition a b m)) : m = a ∧ a ≠ b := by
+  have := evOK_transition cfg _ t a b m (tr_ok_at cfg _ n _ hp (tinv_reachable cfg ops).ok)
+  exact ⟨this.2.2.1, this.2.1⟩
+
+/-- **What the metrics snapshot counts, count-based window**: `(total_calls, failure_count, success_count, slow_call_count)` are
+the counts over the documented window — the last `sliding_window_size` outcomes recorded since the window was last emptied. -/
+theorem metrics_match_window (cfg : Cfg) (ops : List Op) (h : cfg.countBased = true) :
+    stats cfg (run cfg ops).circ = counts ((abs (run cfg ops).circ).window cfg (run cfg ops).now) := by
+  rw [stats_count_window cfg _ _ h (sinv_reachable cfg ops).circ (winv_reachable cfg ops)]
+  simp [Breaker.window, h, abs, lastN_eq]
+
+/-- **… time-based window**: `metrics()` does NOT prune (`time_based_stats()` over `call_records` as they are; only `record_*` and
+`evaluate_window` call `cleanup_old_records`). The records kept are the documented window (outcomes no older than
+`sliding_window_duration`) preceded by `stale` records that have expired since the last recording; the snapshot counts all of
+them. So between recordings the reported totals can exceed the documented window — they never miss an outcome of it. -/
+theorem metrics_time_window (cfg : Cfg) (ops : List Op) (h : cfg.countBased = false) :
+    ∃ stale, (run cfg ops).circ.recs = stale ++ (abs (run cfg ops).circ).window cfg (run cfg ops).now ∧
+      (∀ r ∈ stale, (run cfg ops).now - r.t > cfg.windowMs) ∧
+      stats cfg (run cfg ops).circ = counts (stale ++ (abs (run cfg ops).circ).window cfg (run cfg ops).now) := by
+  obtain ⟨stale, h1, h2, h3⟩ := stats_time_window cfg _ _ h (winv_reachable cfg ops)
+  have hw : (abs (run cfg ops).circ).window cfg (run cfg ops).now
+      = (run cfg ops).circ.hist.filter (fun r => decide ((run cfg ops).now - r.t ≤ cfg.windowMs)) := by
+    simp [Breaker.window, h, abs]
+  exact ⟨stale, by rw [hw]; exact h1, h2, by rw [hw, ← h1]; exact h3⟩
+
+/-- … and it is exactly the documented window whenever no kept record has expired — in particular at the instant an outcome
+has just been recorded (`record_*` prunes first): the snapshot taken right after a recording, in any reachable state and for
+either window type, is the counts over the documented window. -/
+theorem metrics_exact_after_record (cfg : Cfg) (ops : List Op) (fail : Bool) (dur : Nat) (own : Bool) :
+    stats cfg (record cfg (run cfg ops).circ fail dur (run cfg ops).now own).1
+      = counts ((abs (record cfg (run cfg ops).circ fail dur (run cfg ops).now own).1).window cfg (run cfg ops).now) := by
+  have hc := (sinv_reachable cfg ops).circ
+  have hw := winv_reachable cfg ops
+  have hc' := record_inv cfg _ fail dur (run cfg ops).now own hc
+  have hw' := record_winv cfg _ _ fail dur own hc.bounded hw
+  cases hcb : cfg.countBased with
+  | true =>
+    rw [stats_count_window cfg _ _ hcb hc' hw']
+    simp [Breaker.window, hcb, abs, lastN_eq]
+  | false =>
+    rw [stats_time_fresh cfg _ _ hcb hw' (recs_young_after_record cfg _ _ fail dur own hcb hw)]
+    simp [Breaker.window, hcb, abs]
 
 /-- Non-vacuity / the pinned-tree defect as a kernel-checked fact about the documented
 machine: window 4, four successes then two failures opens at the sixth call (the pinned tree
@@ -215,13 +308,16 @@ theorem duration_starts_at_first_poll (cfg : Cfg) (s : State) (f : Fresh)
   exact ⟨_, rfl, rfl, rfl, rfl⟩
 
 /-- … and the duration recorded for it (compared with `slow_call_duration_threshold`) is the time from that poll to the poll
-that finds the inner call finished. -/
-theorem recorded_duration (cfg : Cfg) (s : State) (r : Caller) (h : r.out = .ok) :
+that finds the inner call finished — for every outcome that is recorded at all: successes AND failures (slow failures included);
+only a panic of the inner call is not recorded (it unwinds through the call future). -/
+theorem recorded_duration (cfg : Cfg) (s : State) (r : Caller) (h : r.out ≠ .panic) :
     (complete cfg s r).circ =
-      (record cfg s.circ (classify cfg .ok r.tag) (s.now - r.start) s.now
+      (record cfg s.circ (classify cfg r.out r.tag) (s.now - r.start) s.now
         (decide (r.ep = some s.circ.episode ∧ s.circ.st = .halfOpen))).1 := by
   unfold complete
-  simp [h, emit]
+  split
+  · rename_i hp; exact absurd hp h
+  · rfl
 
 /-- Non-vacuity (slow-call threshold 10, slow-call rate 1/1, window 1): a fast success whose future is first polled 50 ticks
 after `call()` is NOT a slow call (closed, slow count 0); a call whose inner service takes 10 ticks from its late first poll is
@@ -233,6 +329,75 @@ example :
     (run cfg held).circ.st = .closed ∧ (run cfg held).circ.slowN = 0 ∧ (run cfg held).circ.totalN = 1 ∧
     (run cfg slow).circ.st = .opened ∧
     (run cfg (slow.take 3 ++ [.adv 9, .poll 1])).circ.st = .closed := by
+  decide
+
+/-- Non-vacuity, a SLOW FAILURE: threshold 10, the call fails after 10 ticks: recorded as a failure and as slow (window 2,
+failure rate 1/1 not reached by one failure of two, slow rate 1/2 reached: the breaker opens on the slow-call rate). -/
+example :
+    let cfg : Cfg := { size := 2, minCalls := 2, slowMs := some 10, srNum := 1, srDen := 2, frNum := 1, frDen := 1 }
+    let ops := [Op.arrive 1 ⟨0, .ok⟩ 0, .poll 1, .arrive 2 ⟨10, .err 1⟩ 0, .poll 2, .adv 10, .poll 2]
+    (run cfg (ops.take 5)).circ.st = .closed ∧ (run cfg ops).circ.st = .opened ∧
+    (run cfg (ops.take 5 ++ [.views])).log.getLast? = some (10,
+      .views "views state=closed sync=closed is_open=0 mstate=closed total=1 fail=0 succ=1 slow=0 http=200 health=healthy") := by
+  decide
+
+/-- Non-vacuity, TIME-BASED EXPIRY (window duration 100, minimum 2, threshold 1/2): two failures at t = 0 and t = 60 open the
+breaker … unless the first has aged out: with the second failure at t = 101 the window holds one outcome only and the breaker
+stays closed (`time_window_is_young`: pruning removed the record). In between — t = 101, before anything is recorded — the
+metrics snapshot still counts the expired record (`metrics_time_window`: `stale` = that record, the documented window is
+empty); right after the recording it is exact (`metrics_exact_after_record`). -/
+example :
+    let cfg : Cfg := { countBased := false, windowMs := 100, minCalls := 2, frNum := 1, frDen := 2 }
+    let f (c : Nat) := [Op.arrive c ⟨0, .err 1⟩ 0, .poll c]
+    (run cfg (f 1 ++ [.adv 60] ++ f 2)).circ.st = .opened ∧
+    (run cfg (f 1 ++ [.adv 101] ++ f 2)).circ.st = .closed ∧
+    (run cfg (f 1 ++ [.adv 101] ++ f 2)).circ.recs.length = 1 ∧ (run cfg (f 1 ++ [.adv 101] ++ f 2)).circ.hist.length = 2 ∧
+    stats cfg (run cfg (f 1 ++ [.adv 101])).circ = (1, 1, 0, 0) ∧
+    (abs (run cfg (f 1 ++ [.adv 101])).circ).window cfg 101 = [] ∧
+    stats cfg (run cfg (f 1 ++ [.adv 101] ++ f 2)).circ = (1, 1, 0, 0) ∧
+    (specRun cfg [.call true 0, .wait 60, .call true 0]).1.st = .opened ∧
+    (specRun cfg [.call true 0, .wait 101, .call true 0]).1.st = .closed := by
+  decide
+
+/-- Non-vacuity, HALF-OPEN WITH `permitted = 2` (both conjuncts of `closes_after_permitted`, and `reopens_on_failure`): forced
+open, the wait passes; the first success leaves the breaker half-open with one success counted, the second closes it; a
+failure instead of the second success re-opens it. The documented machine and the full model agree step by step. -/
+example :
+    let cfg : Cfg := { size := 4, minCalls := 4, waitMs := 10, permitted := 2 }
+    let ok (c : Nat) := [Op.arrive c ⟨0, .ok⟩ 0, .poll c]
+    let pre := [Op.forceOpen, .adv 10] ++ ok 1
+    (run cfg pre).circ.st = .halfOpen ∧ (run cfg pre).circ.hoSuccesses = 1 ∧
+    (run cfg (pre ++ ok 2)).circ.st = .closed ∧
+    (run cfg (pre ++ [.arrive 2 ⟨0, .err 1⟩ 0, .poll 2])).circ.st = .opened ∧
+    (specRun cfg [.forceOpen, .wait 10, .call false 0]).1.st = .halfOpen ∧
+    (specRun cfg [.forceOpen, .wait 10, .call false 0]).1.succ = 1 ∧
+    (specRun cfg [.forceOpen, .wait 10, .call false 0, .call false 0]).1.st = .closed ∧
+    (specRun cfg [.forceOpen, .wait 10, .call false 0, .call true 0]).1.st = .opened := by
+  decide
+
+set_option maxRecDepth 100000 in
+/-- Non-vacuity of the slow-rate disjunct of `rate_equal_to_threshold_trips` (14 of 25 at 0.56, failure threshold 1/1 out of
+reach): the documented machine, the sequential driver and the full model on the same history open on the 25th call; with 13
+slow calls they stay closed. -/
+example :
+    let cfg : Cfg := { size := 25, minCalls := 25, frNum := 1, frDen := 1, slowMs := some 5, srNum := 56, srDen := 100 }
+    let h (k : Nat) := List.replicate k (Act.call false 5) ++ List.replicate (25 - k) (Act.call false 0)
+    (specRun cfg (h 14)).1.st = .opened ∧ (seqRun cfg (h 14)).1.st = .opened ∧
+    (run cfg (opsOf 0 (h 14))).circ.st = .opened ∧
+    (specRun cfg (h 13)).1.st = .closed ∧ (run cfg (opsOf 0 (h 13))).circ.st = .closed := by
+  decide
+
+/-- Non-vacuity of `seq_embeds` / `refines_run` on a history with everything in it: failures that open the breaker, a call
+rejected while open at t = 3 (the patient client still lets its 7 ticks pass: its trial call at t = 24 is admitted, while the
+impatient client of `seqRun` is at t = 17 and rejected again), a slow trial call, overrides. -/
+example :
+    let cfg : Cfg := { size := 2, minCalls := 2, waitMs := 20, permitted := 1, slowMs := some 5 }
+    let acts := [Act.call true 0, .call true 3, .call false 7, .wait 14, .call false 6, .forceOpen, .reset, .call true 0]
+    abs (run cfg (opsOf 0 acts)).circ = abs (seqRunP cfg acts).1 ∧ (run cfg (opsOf 0 acts)).now = (seqRunP cfg acts).2 ∧
+    (run cfg (opsOf 0 acts)).circ.cwin = (seqRunP cfg acts).1.cwin ∧
+    (seqRunP cfg acts).2 = 30 ∧ (seqRun cfg acts).2 = 17 ∧
+    (abs (run cfg (opsOf 0 acts)).circ) = (specRunP cfg acts).1 ∧
+    (run cfg (opsOf 0 (acts.take 3))).circ.st = .opened ∧ (run cfg (opsOf 0 (acts.take 5))).circ.st = .closed := by
   decide
 
 /-! ## The builder: which configuration a chain of setters produces
